@@ -63,7 +63,7 @@ Lemma nth_map_default {A B} (f : A -> B) l i da db :
   i < length l -> nth i (map f l) db = f (nth i l da).
 Proof. revert i; induction l as [|x l IH]; intros [|i] H; cbn in *; try lia; auto. apply IH; lia. Qed.
 
-Lemma nth_error_nth' {A} (l : list A) i x d : nth_error l i = Some x -> nth i l d = x.
+Lemma nth_error_nth_some {A} (l : list A) i x d : nth_error l i = Some x -> nth i l d = x.
 Proof. revert i; induction l as [|y l IH]; intros [|i]; cbn; intros H; try discriminate; [congruence | apply IH; exact H]. Qed.
 
 (* ---- the skip table ---- *)
